@@ -85,12 +85,12 @@ def check_one(name, attrib, data, addr):
 _CHUNK = {}
 
 
-def boundary_variants(data, l):
+def boundary_variants(data, l, sizes=(1, 2, 4, 8)):
     """the instruction's bytes with its last 1 / 2 / 4 / 8 bytes (where an immediate or displacement usually sits) replaced by
     boundary values of every narrower width, in both byte orders"""
     out = []
     seen = set()
-    for s in (1, 2, 4, 8):
+    for s in sizes:
         if s >= l:
             break
         vals = {0, 1}
